@@ -122,6 +122,13 @@ def check(run):
     rets = [r for r in q.returns(cc) if not any(q.render(cc, a) == 'm_close' and p for a, p in q.guards_at(cc, r))]
     run.check(oka and not rets and q.must_follow(cc, closes[0], acc + [r for r in q.returns(cc)]) if closes else False, 'R4', 'next-client-accepted', H + '::close_connection', cc.loc(),
               'close_connection does not close both connections and re-arm accept on every path on which the proxy is not stopping', 'closes both sockets, re-arms accept unless m_close')
+    for fld in ('m_num_client_in_bytes', 'm_num_server_out_bytes', 'm_num_in_bytes'):
+        z = [a.site for a in q.field_accesses(cc, {H + '::' + fld}) if a.kind == 'assign' and q.int_value(a.site['rhs']) == 0]
+        run.check(bool(z) and q.on_all_paths(cc, z), 'R7', 'session-state-reset', '%s resets %s' % (H + '::close_connection', fld), cc.loc(),
+                  '%s is not reset to 0 on every path of close_connection: bytes queued for one client (e.g. a request that ended in 503) are sent on behalf of the next client' % fld, 'reset on every path')
+    for c in closes:
+        run.check(not q.guards_at(cc, c) or all(q.render(cc, a) in ('err',) for a, p in q.guards_at(cc, c)), 'R7', 'session-sockets-closed', '%s closes %s' % (H + '::close_connection', q.render(cc, c.get('obj'))), cc.loc(c),
+                  'a connection is closed only under %s' % [q.render(cc, a) for a, p in q.guards_at(cc, c)], 'closed unconditionally')
     for name in ('on_read_request', 'on_server_write', 'on_server_receive', 'on_server_forward', 'on_accept'):
         fn = f(name)
         run.touch(fn)
